@@ -284,6 +284,21 @@ def r3_build(run, F):
         ok_scan = "enumerate" in calls and "iter" in calls and "index" not in calls and not steps
         det = "tested node comes from %s; hand-written index updates: %d" % (calls, len(steps))
     run.ob("R3-DECLARATIONS", "build_header scans every node", ok_scan, F.where(bh), det)
+    # the list of declarations is in node order because it is filled by one forward scan; nothing reorders or filters it afterwards
+    # (NodeId is three little-endian bytes: a derived ordering is not the numeric one beyond 255 nodes)
+    decl_lids = set()
+    for pth, node in hirq.constructs(bh["hir"]):
+        if node.get("k") == "Struct" and pth.endswith("ParseTree"):
+            for f in node.get("fields", []):
+                if f["name"] == "declarations":
+                    for y in walk(f["e"]):
+                        if y.get("k") == "Path" and y.get("rk") == "Local":
+                            decl_lids.add(y.get("lid"))
+    meths = sorted(set(c.get("name") for c in hirq.calls(bh["hir"]) if c.get("k") == "MethodCall" and
+                       any(y.get("k") == "Path" and y.get("lid") in decl_lids for y in walk(c["recv"]))))
+    other = [m_ for m_ in meths if m_ not in ("push", "reserve", "len", "capacity", "is_empty")]
+    run.ob("R3-DECLARATIONS", "declarations stay in scan order", bool(decl_lids) and "push" in meths and not other, F.where(bh),
+           "methods applied to the header's list of declarations: %s; anything but push can reorder or drop entries: %s" % (meths, other))
     asserts = [c for c in hirq.calls(bh["hir"]) if hirq.panic_kind(c) == "assert"]
     run.ob("R3-NO-ERRORS-PRECONDITION", "build_header", len(asserts) >= 1, F.where(bh),
            "build_header asserts errors.is_empty(): an open zone only exists after a parse error")
